@@ -9,6 +9,7 @@ Decided (necessary conditions; not output equality):
  R01c mask/axis agreement at the slicing sites of ``export``.
  R01d argument-slot agreement of the constructor calls in ``export``.
  R01e padding: left pad == (k_opt-1)*d_opt, right pad 0, value 0.
+ R01j export re-creates the trailing BatchNorm exactly when forward applies it.
  R01f exported hyper-parameters are derived from the masks that forward applies
       (kernel_size_opt <- time mask, dilation_opt <- binarised gamma theta * original
       dilation, out/in features <- feature masks), all with the layer's own threshold.
@@ -637,6 +638,56 @@ def r01f(ctx, classes: List[ClassInfo]):
     ctx.floor('R01f', 'exported hyper-parameter getters', n, 10)
 
 
+def r01j(ctx, classes: List[ClassInfo]):
+    """The BatchNorm after a searchable layer: export re-creates it in exactly the
+    configurations (fold_bn x bn present) in which forward applies ``self.bn``."""
+    repo = ctx.repo
+    n = 0
+    for ci in classes:
+        fwd, exp = ci.methods.get('forward'), ci.methods.get('export')
+        if fwd is None or exp is None:
+            continue
+        sub = find_export_submodule(ctx, exp, ci)
+
+        def worlds(fn, obj, applies):
+            out = set()
+            seen_any = False
+            for p in returning(paths(repo, fn)):
+                hit = any(applies(e) for e in p.events if e.kind == 'call')
+                seen_any = seen_any or hit
+                fold = bn_none = None
+                for a, pol in p.assumptions:
+                    if a == ('attr', obj, 'fold_bn'):
+                        fold = pol
+                    if a == ('isnone', ('attr', obj, 'bn')):
+                        bn_none = pol
+                if hit:
+                    for f in ((fold,) if fold is not None else (True, False)):
+                        for b in ((bn_none,) if bn_none is not None else (True, False)):
+                            out.add((f, b))
+            return out, seen_any
+        wf, any_f = worlds(fwd, SELF, lambda e: e.data[0][1] == ('attr', SELF, 'bn'))
+        if not any_f:
+            continue        # the layer kind has no trailing BatchNorm
+        we, _ = worlds(exp, sub, lambda e: (callee(e.data[0]) or '').startswith(
+            'torch.nn.BatchNorm') or (callee(e.data[0]) or '').startswith(
+            'torch.nn.modules.batchnorm.BatchNorm'))
+        n += 1
+        # bn is None admits no BatchNorm on either side: compare the worlds with a bn present
+        wf2 = {w for w in wf if w[1] is not True}
+        we2 = {w for w in we if w[1] is not True}
+        ok = wf2 == we2
+
+        def fmt(ws):
+            return sorted(f'fold_bn={f}' for f, _b in ws) or ['never']
+        ctx.ob('R01j', f'{ci.name}.export re-creates the BatchNorm when forward applies it', ok,
+               f'both with a BatchNorm present and {fmt(wf2)}' if ok else
+               f'forward applies self.bn for {fmt(wf2)} but export creates a BatchNorm for '
+               f'{fmt(we2)}: the exported network lacks (or duplicates) the normalisation the '
+               f'searched network computes', where(exp))
+    ctx.floor('R01j', 'layer classes with a trailing BatchNorm', n, 3)
+
+
 def run(ctx):
     from .c09 import r09f
     r09f(ctx, 'R01i')       # depthwise: graph classification agrees with export
@@ -647,6 +698,7 @@ def run(ctx):
     r01g(ctx)
     r01_export(ctx, classes)
     r01f(ctx, classes)
+    r01j(ctx, classes)
     # R01h: masks line up across flatten / concat boundaries (shared with C09 R09c)
     from . import c09
     before = len(ctx.obligations)
